@@ -73,7 +73,8 @@ ProxyProtocol::One::ExtractIp(Parser::Tokenizer &tok, Ip::Address &addr)
     if (!tok.skip(' '))
         throw TexcHere("PROXY/1.0 error: garbage after IP address");
 
-    if (!addr.GetHostByName(ip.c_str()))
+    // the token must be a numeric address: never consult name services for bytes received from the wire
+    if (!(addr = ip.c_str()))
         throw TexcHere("PROXY/1.0 error: invalid IP address");
 
 }
